@@ -44,12 +44,12 @@ META = {
             "kind model predicts accept/refuse and the saved value for every lossless row. config.Manager's remote source is modelled "
             "as a state machine (Source, sections) for any URL type and web: source_roundtrip / http_roundtrip (accepted sourced load on any prior "
             "state saves exactly {source:url} and reloads to the same configuration), plain_roundtrip, accepted_iff, nested/failed fetch refused, "
-            "source_never_cleared, and reuse_full_fails (a stale Source on a re-used Manager drops a later plain configuration: finding K34); "
+            "source_cleared_only_by_plain, accepted_load_forgets_history and reuse_full (after any operation sequence on any Manager an accepted "
+            "document is exactly what is saved and reloads to the same state; false before /repo fbf34ff, finding F39); "
             "the real Manager is driven through the same operation sequences and must agree with the model observation for observation.",
     "note": "Trusted: Lean kernel (+propext, Classical.choice, Quot.sound), the go/ast translator's pattern matcher (fail-closed), the harness "
             "(reflection on Config fields, value classification), Go's time and encoding/json. Known findings on the unchanged tree: K11 "
-            "(booleans cannot be set to false under SetIfNotDefault/mergo), K12 (explicit empty string/list replaced by the default), K34 (Manager.Source is never cleared: a re-used Manager saves a stale source "
-            "instead of a later plain configuration). Found by this "
-            "check and since repaired in /repo: crdt dropped the ParseDurations error (639679f), Manager.LoadJSON panicked on a null section (c0fa836).",
+            "(booleans cannot be set to false under SetIfNotDefault/mergo), K12 (explicit empty string/list replaced by the default). Found by this "
+            "check and since repaired in /repo: crdt dropped the ParseDurations error (639679f), Manager.LoadJSON panicked on a null section (c0fa836), Manager.Source was never cleared (fbf34ff).",
     "technique": "Lean 4 theorems per copy-kind for all values + go/ast translator with decide over the regenerated schema + differential sweeps of the real loaders",
 }
